@@ -490,6 +490,7 @@ def run(ctx):
     K.check_block_predicates(ctx, f)
     check_sweeps(ctx, f)
     check_append(ctx, f)
+    check_block_sum(ctx, f)
     check_no_limit_sentinel(ctx, f)
     K.check_bool_table(ctx, f, "R-REG", "ca::provisioning::RequestResourceLimit::is_empty",
                        [(r"^Option::is_none\(self\.asn\)$", "asn"), (r"^Option::is_none\(self\.ipv4\)$", "v4"),
@@ -730,6 +731,54 @@ def check_sweeps(ctx, f):
                where=b.loc, detail=problems[:6] or None)
         if not problems:
             ctx.floor("R-STEP", short_fn + " rounds", rounds, floor)
+
+
+def check_block_sum(ctx, f):
+    """Block::sum (what merge_or_add_block folds an out-of-order block into a stored one with) over the order domain: for
+    every placement of two blocks it is Some(the block spanning both) exactly when their union is one interval —
+    overlapping or adjacent, at the ends of the number space too — and None otherwise."""
+    from engine import stepexec as SX, sweep
+    name = CH + "Block::sum"
+    b = f.body(name)
+    if b is None:
+        return ctx.missing("R-STEP", "Block::sum", name)
+    ctx.saw_fn(name)
+    vmax = 8
+    m = SX.Machine(f, vmax)
+    bad, n, outside = [], 0, None
+    ivs = sweep.intervals(vmax)
+    try:
+        for A in ivs:
+            for C in ivs:
+                n += 1
+                env = {1: ("block", A[0], A[1], ("a",)), 2: ("block", C[0], C[1], ("c",))}
+                try:
+                    kind, at, e2, ret = m.run(b, 0, env, ())
+                except SX.PanicPath as e:
+                    bad.append({"a": A, "c": C, "problem": "panics: %s" % e})
+                    continue
+                one = A[0] <= C[1] + 1 and C[0] <= A[1] + 1
+                want = (min(A[0], C[0]), max(A[1], C[1])) if one else None
+                got = "?"
+                if isinstance(ret, tuple) and ret[0] == "adt" and ret[1] == "Option":
+                    got = None if ret[2] == "None" else ((ret[3][0][1], ret[3][0][2]) if SX.is_concrete_block(ret[3][0]) else "?")
+                if got != want:
+                    bad.append({"a": A, "c": C, "sum": got, "union_as_one_block": want})
+                if len(bad) > 5:
+                    break
+            if len(bad) > 5:
+                break
+    except SX.Unsupported as e:
+        outside = str(e)
+    if outside is not None:
+        if ctx.view is not None:
+            return
+        ctx.note("R-STEP gives no verdict on Block::sum: %s" % outside[:200])
+        return ctx.ob("R-STEP", "Block::sum:table", True, "Block::sum: outside the interpreter's vocabulary (%s) — no verdict from this rule"
+                      % outside[:120], where=b.loc, nontrivial=False)
+    ctx.ob("R-STEP", "Block::sum:table", not bad,
+           "Block::sum of two blocks is Some(the block spanning both) exactly when their union is a single interval (overlap or "
+           "adjacency), None otherwise: %d placements interpreted" % n, where=b.loc, detail=bad or None)
 
 
 def check_append(ctx, f):
